@@ -112,7 +112,7 @@ private def loadFrom (tbl : Json) (path : String) : Except Err Atoms :=
       | .ok a => .ok a
       | .error _ => .error (.reject "unparsable")
 
-def parseEnv (j : Json) : P Env := do
+def parseCliEnv (j : Json) : P Env := do
   let files := fieldD j "files" (Json.mkObj [])
   let ase := fieldD j "ase" (Json.mkObj [])
   let dump := fieldD j "dump" (Json.mkObj [])
@@ -190,7 +190,7 @@ def handleCli (op : String) (j : Json) : Option (P Json) :=
   match op with
   | "cli_run" => some do
       let o ← parseCliOptions (← field j "opts")
-      let env ← parseEnv j
+      let env ← parseCliEnv j
       pure (Json.mkObj [("run", outputToJson (runPlan env o)), ("api", outputToJson (apiPipeline env o))])
   | "cli_parse" => some do
       let argv ← parseStrList (← field j "argv")
